@@ -92,7 +92,9 @@ def Cpu.setCr (c : Cpu) (n : Nat) (v : BitVec 64) : Cpu :=
   match n with
   | 0 => { c with cr0 := v }
   | 2 => { c with cr2 := v }
-  | 3 => { c with cr3 := v }
+  -- MOV to CR3 does not modify bit 63 of CR3, which is reserved and always 0 (SDM Vol. 2, MOV
+  -- to/from control registers; bit 63 of the source only selects "no invalidation")
+  | 3 => { c with cr3 := v &&& ~~~(1#64 <<< 63) }
   | 4 => { c with cr4 := v }
   | 8 => { c with cr8 := v }
   | _ => c
